@@ -2,7 +2,7 @@
 
    S, the reference evaluator, is [eval Ref]: the evaluator of Model.v with every switch set to what the language
    definition says: lexical scoping (a scope sees the cells that existed when it was formed), a variable bound by
-   let / let* / do / do* holds the primary value of its init or step form, too few arguments are an error.  (Since the
+   let / let* / do / do* or by the default form of an &optional parameter holds the primary value of that form.  (Since the
    repairs C01-6..19 everything else - tests and the other single-value places take the primary value, the last form
    of progn / a body passes all its values on, dotimes leaves the number of iterations in its variable, the end test
    of do is evaluated whatever its shape - is the same definition in every mode.)
